@@ -15,8 +15,11 @@ the data path), spec/MagicMemMC.tla (menus from JSON), spec/MagicMemTrace.tla (t
      A subset is validated again with the Process events dropped (TLC infers the order).
   4. timing independence: the same race-free streams under several timing configurations and both
      implementations must give identical response contents and images.
-  5. canaries: swapped responses, stale read data, wrong final byte, dropped Process, wrong opaque
-     must be rejected (linear and inferred mode).
+  5. canaries: swapped responses, stale read data, wrong final byte, dropped Process, wrong opaque,
+     AMO response that is not the old value must be rejected (linear and inferred mode); hand-written
+     one-request histories: an amo.add applied once is accepted, applied twice / applied and never
+     answered / answered and never applied / answered with the new value are rejected in both modes.
+The TLC runs of 1 and 2 are started first and run beside 3-5 (they need nothing from them).
 
 NOTE: Trusted base: TLC, spec/MagicMem.tla as the statement, harness/c18_drv.py (sources, sinks, the
 wrapper around the MagicMemoryFL instance's read/write/amo, val/rdy sampling after each sim_tick).
@@ -24,9 +27,13 @@ Assumptions: AMOs are word-sized (len = 0); 32-bit data, 8-bit opaque messages; 
 16-24 byte window (the rest of the memory is checked to stay zero); INV/FLUSH only on the CL memory
 (the stream memory asserts on them); response `len`/`test` fields and the data field of write
 responses are not constrained by the statement and not compared; of a sub-word read response only the
-requested bytes are compared.  A memory call that serves no accepted request (the stream memory
-evaluates offered-but-not-accepted requests) is a violation only if the run is not observably
-sequential (decided by the inferred-order mode).
+requested bytes are compared.  The statement does not tie the processing point to the val/rdy
+handshake: a memory call that serves no accepted, unprocessed request (e.g. a request of the stream
+memory that is presented but not yet accepted -- MagicMemoryRTL evaluated those before 1fc3b85) is a
+violation only if the run is not observably sequential, i.e. if no order of applying every request
+exactly once between the cycle it is first presented and its response explains all responses and the
+final image (decided by the inferred-order mode).  A request applied twice with a visible effect, or
+applied and never accepted / answered, has no such order.
 """
 import collections
 import copy
@@ -630,7 +637,7 @@ def _code_to_spec(res, quick):
         w = 16
         streams, prof = _gen_streams(R, np_, maxlen_rtl, w, inv=False)
         cfg = _timing(R, "rtl", streams)
-        if k % 3 == 0:   # a sink that never stalls: the memory never evaluates unaccepted requests
+        if k % 3 == 0:   # a sink that never stalls: the response pipe never pushes back on requests
             cfg["sink_delays"] = [[0] * (len(s) + 1) for s in streams]
         jobs.append(_mk_job("rtl", streams, cfg, w, [R.randrange(256) for _ in range(w)], "rtl/%d/%s" % (k, prof)))
     traces = _post(res, _run_jobs(jobs))
@@ -896,6 +903,7 @@ def run(res, tier):
     ctx = multiprocessing.get_context("fork")
     _POOL = ctx.Pool(os.cpu_count() or 4)
     bg = ThreadPoolExecutor(max_workers=1)
+    s2c_fut = []
     try:
         t0 = time.time()
         s2c_in = _s2c_inputs(quick)
@@ -913,8 +921,12 @@ def run(res, tier):
         ph["background_model_check_and_simulate_total"] = round(time.time() - t0, 1)
         ph["waited_for_background_after_foreground"] = round(time.time() - t1, 1)
     finally:
+        # orderly also when a phase raised: let the background work finish, so that no TLC process
+        # and no scratch directory is left behind
         bg.shutdown(wait=True)
-        _POOL.terminate()
+        for f in s2c_fut:
+            f.wait(3000)
+        _POOL.close()
         _POOL.join()
         _POOL = None
     res.note("phase_wall_s", ph)
